@@ -83,10 +83,34 @@ int main(int argc, char** argv) {
 		if (d.empty() && (E.wx_events || E.wx_cache_events)) d = std::string("W^X violated during destruction: ") + E.wx_what;
 		return d;
 	};
+	// populations: MANY secure VMs (and two JIT caches) alive at once - a per-process table or pool inside the library only shows with dozens of live code buffers
+	// (seeded change agent8_C16: a 16-entry protection table, W+X from the 17th buffer on). Create n secure VMs, hash on each, re-bind some to the second cache, hash, destroy.
+	auto population_case = [&](int vmflags, int n) -> std::string {
+		env::State& E = env::S(); E.hugepages = true; g_secure_family = true; std::string d; d.reserve(400); std::vector<randomx_vm*> vms; vms.reserve((size_t)n + 1);
+		randomx_cache* c[2] = { nullptr, nullptr };
+		{ env::Track t; for (int i = 0; i < 2; ++i) { env::S().cur_owner = 10 + i; c[i] = randomx_alloc_cache(RANDOMX_FLAG_JIT); if (c[i]) randomx_init_cache(c[i], i ? "second key" : "test key 000", i ? 10 : 12); } }
+		if (!c[0] || !c[1]) return "randomx_alloc_cache failed";
+		uint8_t h[32];
+		for (int i = 0; i < n && d.empty(); ++i) {
+			randomx_vm* vm; { env::Track t; env::S().cur_owner = 20; vm = randomx_create_vm((randomx_flags)vmflags, c[0], nullptr); }
+			if (!vm) { d = "randomx_create_vm failed for VM " + std::to_string(i); break; } vms.push_back(vm);
+			if (E.wx_events || E.wx_cache_events) { d = "creating secure VM #" + std::to_string(i) + " (" + std::to_string(i + 3) + " code buffers alive): " + E.wx_what; break; }
+			{ env::Track t; randomx_calculate_hash(vm, "x", 1, h); }
+			if (E.wx_events || E.wx_cache_events) { d = "first hash of secure VM #" + std::to_string(i) + ": " + E.wx_what; break; }
+			if (i % 8 == 7) { std::string m = maps_check(false); if (!m.empty()) { d = "with " + std::to_string(i + 1) + " secure VMs alive: " + m; break; } }
+		}
+		for (size_t i = 0; i < vms.size() && d.empty(); i += 5) { { env::Track t; randomx_vm_set_cache(vms[i], c[1]); } if (E.wx_events || E.wx_cache_events) { d = "re-binding secure VM #" + std::to_string(i) + " of " + std::to_string(vms.size()) + ": " + E.wx_what; break; }
+			{ env::Track t; randomx_calculate_hash(vms[i], "x", 1, h); } if (E.wx_events || E.wx_cache_events) { d = "hash after re-binding secure VM #" + std::to_string(i) + ": " + E.wx_what; break; } }
+		if (d.empty()) d = maps_check(false);
+		{ env::Track t; for (auto vm : vms) randomx_destroy_vm(vm); randomx_release_cache(c[0]); randomx_release_cache(c[1]); }
+		if (d.empty() && (E.wx_events || E.wx_cache_events)) d = std::string("while giving the population back: ") + E.wx_what;
+		return d;
+	};
 	auto make_alpha = [&](int flags) { Alphabet A; A.vm_flags = flags; A.keys = { "test key 000", "" }; A.inputs = { "This is a test" }; A.cache_jit_variants = true; A.with_batch = th; return A; };
 
 	if (!args.replay.empty()) {
 		vf::Json r = vf::Json::load(args.replay);
+		if (r.has("kind") && r.at("kind").s == "population") { env::init(); maps_check(true); std::string d = population_case((int)r.at("vm_flags").num(), (int)r.at("n").num()); printf("replay: %s\n", d.empty() ? "no W+X page" : d.c_str()); return d.empty() ? 0 : 1; }
 		if (r.has("kind") && r.at("kind").s == "attempt") { env::init(); maps_check(true); std::string d = attempt_case({ (int)r.at("vm_flags").num(), r.at("hugepages").b }); printf("replay: %s\n", d.empty() ? "no W+X page" : d.c_str()); return d.empty() ? 0 : 1; }
 		Alphabet A = make_alpha((int)r.at("vm_flags").num()); g_secure_family = r.at("secure_family").b;
 		env::init(); env::S().hugepages = true; W.A = &A; compute_expected(W); maps_check(true);
@@ -105,6 +129,16 @@ int main(int argc, char** argv) {
 				if (!(WIFEXITED(st) && WEXITSTATUS(st) == 0)) d = "abnormal termination of the creation attempt";
 				R.n["creation_attempts"]++;
 				if (!d.empty() && R.viol.size() < 4) { vf::Violation v; v.key = "c16:attempt"; char t[64]; snprintf(t, sizeof t, "flags 0x%x hugepages=%s: ", at.flags, at.huge ? "yes" : "no"); v.what = std::string("create_vm ") + t + d; v.replay = rp; R.viol.push_back(v); }
+			}
+			for (int vmf : { (int)(RANDOMX_FLAG_JIT | RANDOMX_FLAG_SECURE), (int)(RANDOMX_FLAG_JIT | RANDOMX_FLAG_SECURE | RANDOMX_FLAG_HARD_AES), (int)(RANDOMX_FLAG_JIT | RANDOMX_FLAG_SECURE | RANDOMX_FLAG_LARGE_PAGES) }) for (int n : { 15, 16, 17, 40 }) {
+				if (!th && n != 17 && n != 40) continue;
+				vf::Json rp = vf::Json::obj().set("kind", "population").set("vm_flags", vmf).set("n", n);
+				int pfd[2]; if (pipe(pfd)) continue; fflush(stdout); pid_t pid = fork();
+				if (pid == 0) { env::init(); maps_check(true); std::string d = population_case(vmf, n); if (write(pfd[1], d.data(), d.size())) {} _exit(0); }
+				close(pfd[1]); std::string d; char buf[512]; ssize_t k; while ((k = read(pfd[0], buf, sizeof buf)) > 0) d.append(buf, (size_t)k); close(pfd[0]); int st; waitpid(pid, &st, 0);
+				if (!(WIFEXITED(st) && WEXITSTATUS(st) == 0)) d = "abnormal termination of the population";
+				R.n["populations"]++;
+				if (!d.empty() && R.viol.size() < 4) { vf::Violation v; v.key = "c16:population"; char t[80]; snprintf(t, sizeof t, "%d secure VMs (flags 0x%x) on two JIT caches: ", n, vmf); v.what = t + d; v.replay = rp; R.viol.push_back(v); }
 			}
 			return R;
 		}
@@ -136,7 +170,7 @@ int main(int argc, char** argv) {
 	vf::Evidence ev; ev.level = "model_checking";
 	ev.coverage.set("states", (unsigned long long)total.n["states"]).set("transitions", (unsigned long long)total.n["transitions"]).set("traces_validated_against_impl", (unsigned long long)total.n["transitions"])
 		.set("evaluations", (unsigned long long)total.n["transitions"]).set("distinct_nontrivial", (unsigned long long)total.n["states"]).set("depth_bound", depth).set("exhaustive", !total.incomplete)
-		.set("rule", std::string("profile ") + RX_PROFILE + ": histories of alloc/init/re-key/release cache (default and JIT, two caches), create/destroy VM, vm_set_cache, dataset ops, hash" + (th ? ", first/next/last" : "") + ", v1<->v2 up to the depth bound, per VM flag set: secure family (SECURE JIT sets and interpreter sets with the SECURE bit) - no protection request carries WRITE and EXEC together on any library mapping; non-secure JIT family - none on cache-owned mappings; after every call /proc/self/maps must agree with the tracked protections and show no new w+x region; the secure JIT sets also with LARGE_PAGES (harness answers MAP_HUGETLB); creation attempts: every flag set with SECURE, with LARGE_PAGES where huge pages are available and where they are not (the call fails: requests made before the failure count); positive control: a non-secure JIT VM is seen as RWX by the monitor and hashes stay correct (pages were executable when needed)");
+		.set("rule", std::string("profile ") + RX_PROFILE + ": histories of alloc/init/re-key/release cache (default and JIT, two caches), create/destroy VM, vm_set_cache, dataset ops, hash" + (th ? ", first/next/last" : "") + ", v1<->v2 up to the depth bound, per VM flag set: secure family (SECURE JIT sets and interpreter sets with the SECURE bit) - no protection request carries WRITE and EXEC together on any library mapping; non-secure JIT family - none on cache-owned mappings; after every call /proc/self/maps must agree with the tracked protections and show no new w+x region; the secure JIT sets also with LARGE_PAGES (harness answers MAP_HUGETLB); creation attempts: every flag set with SECURE, with LARGE_PAGES where huge pages are available and where they are not (the call fails: requests made before the failure count); populations of 17 and 40 (thorough also 15, 16) secure VMs on two JIT caches with hashes and re-binds; positive control: a non-secure JIT VM is seen as RWX by the monitor and hashes stay correct (pages were executable when needed)");
 	ev.assumptions = { "Linux/x86-64 only; the macOS pthread_jit_write_protect_np path is not compiled here", "protection requests reach the kernel only through libc's mmap/mprotect (validated against /proc/self/maps after every call)" };
 	return vf::finish(args, total, ev, true, true);
 }
